@@ -69,10 +69,15 @@ func runCatchupSuite(seed uint64, n int, out *Out, stats *Stats) {
 			wallets = append(wallets, NewWallet(k))
 		}
 		length := 2 + r.Intn(24)
+		// the catching-up node
+		start := r.Intn(4)
+		if start == 3 {
+			// a partitioned node needs room: a shared prefix of two blocks or more and two own blocks or more, below the page size
+			set.Limit = uint64(r.Pick(5, 6, 8, 12))
+			length = 6 + r.Intn(20)
+		}
 		server, now := buildServer(r, set, wallets, length, stats)
 		served := server.AllBlocks()
-		// the catching-up node
-		start := r.Intn(3)
 		var univ []string
 		for _, wl := range wallets {
 			univ = append(univ, wl.Addr)
@@ -86,6 +91,9 @@ func runCatchupSuite(seed uint64, n int, out *Out, stats *Stats) {
 		case 1: // a private chain, shorter than the served chain and than the page
 			host = NewNode(set, wallets[1+r.Intn(4)].Addr)
 			startKind = "private"
+		case 3: // a node that followed the served chain, was cut off and went on alone: shares a prefix, diverges before its tip
+			host = NewNode(set, wallets[1+r.Intn(4)].Addr)
+			startKind = "partitioned"
 		default: // a longer prefix, obtained by an earlier sync
 			host = NewNode(set, wallets[0].Addr)
 			startKind = "prefixN"
@@ -111,6 +119,20 @@ func runCatchupSuite(seed uint64, n int, out *Out, stats *Stats) {
 					break
 				}
 			}
+		}
+		if start == 3 && len(served) > 4 {
+			maxTotal := int(set.Limit) - 1
+			if len(served)-1 < maxTotal {
+				maxTotal = len(served) - 1
+			}
+			p := 2 + r.Intn(maxTotal-3) // 2 <= p <= maxTotal-2
+			pre := MirrorBlocks(served[:p])
+			rec.Update(served[p-1].Timestamp(), []*Peer{staticPeer("10.9.9.9:10600", pre, set.Limit)})
+			own := 2 + r.Intn(maxTotal-p-1)
+			for k := 1; k <= own && len(host.AllBlocks()) == p+k-1; k++ {
+				rec.Validate(served[p-1].Timestamp() + int64(k)*set.Interval)
+			}
+			stats.Count(fmt.Sprintf("catchup/partitioned shared=%d own=%d", p, len(host.AllBlocks())-p))
 		}
 		startLen := len(host.AllBlocks())
 		// rounds against 1..3 honest neighbors all holding the served chain
